@@ -183,7 +183,8 @@ def _run_shard(args):
     path, timeout = args
     t0 = time.time()
     try:
-        rc, out = sh(['coqc', '-Q', str(COQ / 'theories'), 'Femto', '-w', '-all', path.name], timeout, cwd=path.parent)
+        rc, out = sh(['sh', '-c', 'ulimit -s unlimited 2>/dev/null; exec coqc -Q "$0" Femto -w -all "$1"',
+                      str(COQ / 'theories'), path.name], timeout, cwd=path.parent)
     except subprocess.TimeoutExpired:
         return path, None, f'timeout after {timeout}s', time.time() - t0
     if rc != 0:
